@@ -599,3 +599,83 @@ def pr_closed_form_2d(A, wcol, wrow, mode):
             return lift(_pr_axis(lambda q: rd([n_, c_, r, q]), Ww, wrow, mode)(j))
         return lift(_pr_axis(rowsig, Hh, wcol, mode)(i))
     return fresh_like((Bn, Cc, Hh, Ww), elem, A)
+
+
+# ---------------------------------------------------------------------------
+# stationary (undecimated) transform
+# ---------------------------------------------------------------------------
+def afb1d_atrous_contract(it, x, h0, h1, mode='periodic', dim=-1, dilation=1):
+    """out[n, 2c+b, .., i ..] = sum_u dec_b[u] x[n, c, .., (i + d*L/2 - d*u) mod N ..]  (dec = reverse(h)),
+    same extent as the input: one level of pywt.swt with the filters dilated by d.  Only the
+    circular extension ('periodic') is the stationary transform; mypad rejects 'periodization'."""
+    c = ctx()
+    if mode != 'periodic':
+        if mode in ('zero', 'symmetric', 'reflect', 'constant', 'replicate'):
+            raise Unsupported('afb1d_atrous contract: only the periodic extension is specified')
+        raise Raised('ValueError', 'Unkown pad type')
+    if not is_conc(simp(dilation)):
+        raise Unsupported('symbolic dilation')
+    if x.ndim != 4:
+        raise Raised('RuntimeError', 'afb1d_atrous expects a 4-D input, got rank %d' % x.ndim)
+    dl = simp(dilation)
+    d = dim % 4
+    tap0, L_ = _tap_reader(h0, d)
+    tap1, L1 = _tap_reader(h1, d)
+    c.require('afb1d_atrous-pre:len(h0)==len(h1)', I(L_) == I(L1))
+    read, R, Nn = _axis_args(x, d)
+    Bn, Cc = x.shape[0], x.shape[1]
+
+    def elem(idx):
+        n_, oc, p_, q_ = idx
+        i, r = (q_, p_) if d == 3 else (p_, q_)
+        ch = simp(I(oc) / 2)
+        band = simp(I(oc) % 2)
+        out = ZERO
+        for b_, tap in ((0, tap0), (1, tap1)):
+            g = simp(band == b_)
+            if g is False:
+                continue
+            f = specs.swt1(bk, lambda j: read(n_, ch, r, j), Nn, lambda u: tap(simp(I(L_) - 1 - I(u))), L_, dl)
+            out = out + lift(f(i)).guard(g)
+        return out
+    shape = (Bn, simp(2 * I(Cc)), x.shape[2], x.shape[3])
+    return fresh_like(shape, elem, x)
+
+
+def afb2d_atrous_contract(it, x, filts, mode='periodization', dilation=1):
+    if len(filts) != 4 or not all(isinstance(f, STensor) and f.meta.get('kind') == 'torch' for f in filts):
+        raise Unsupported('afb2d_atrous contract: four prepared filter tensors')
+    h0c, h1c, h0r, h1r = filts
+    lohi = afb1d_atrous_contract(it, x, h0r, h1r, mode, 3, dilation)
+    return afb1d_atrous_contract(it, lohi, h0c, h1c, mode, 2, dilation)
+
+
+def spec_swt_level_2d(A, col, row, d):
+    """one level of pywt.swt2 (filters dilated by d, periodic boundary): (N,C,4,H,W) with bands (A, H, V, D)"""
+    Bn, Cc, Hh, Ww = A.shape
+    Lc, Lr_ = col[0].shape[0], row[0].shape[0]
+    rd = A.snap()
+    fs = {('c', 0): col[0].snap(), ('c', 1): col[1].snap(), ('r', 0): row[0].snap(), ('r', 1): row[1].snap()}
+
+    def band(a_row, b_col):
+        def at(n_, c_, i, j):
+            def rowfilt(r):
+                return lift(specs.swt1(bk, lambda q: rd([n_, c_, r, q]), Ww, lambda u: fs[('r', a_row)]([u]), Lr_, d)(j))
+            return lift(specs.swt1(bk, rowfilt, Hh, lambda u: fs[('c', b_col)]([u]), Lc, d)(i))
+        return at
+    bands = [band(0, 0), band(0, 1), band(1, 0), band(1, 1)]
+
+    def elem(idx):
+        n_, c_, k, i, j = idx
+        out = ZERO
+        for kk in range(4):
+            g = simp(I(k) == kk)
+            if g is False:
+                continue
+            out = out + bands[kk](n_, c_, i, j).guard(g)
+        return out
+    return fresh_like((Bn, Cc, 4, Hh, Ww), elem, A)
+
+
+CONTRACTS['dwt.lowlevel:afb1d_atrous'] = afb1d_atrous_contract
+CONTRACTS['dwt.lowlevel:afb2d_atrous'] = afb2d_atrous_contract
